@@ -1,0 +1,15 @@
+//go:build verif
+
+package app
+
+// Contracts for the verification framework in /verif (comment-only file; compiled
+// only with -tags verif, where it contributes nothing but these comments).
+
+//@ // ---- C11: declared effects of the application wiring (checked per instruction by the effect checker; anything not
+//@ // listed is effect-free). The ABCI steps InitChainer / BeginBlocker / EndBlocker are entry points: they may not have, or
+//@ // reach, any of these. The map ranges below copy one map into another at process start (order cannot be observed). ----
+//@ effects App.BlockedModuleAccountAddrs nondet.maprange
+//@ effects App.ModuleAccountAddrs nondet.maprange
+//@ effects GetMaccPerms nondet.maprange
+//@ effects New nondet.maprange
+//@ effects init#1 global.write
